@@ -5,6 +5,7 @@ package crypki
 
 import (
 	"context"
+	"errors"
 	"fmt"
 
 	grpc_retry "github.com/grpc-ecosystem/go-grpc-middleware/retry"
@@ -80,6 +81,9 @@ func NewSigner(conf SignerConfig) (*Signer, error) {
 
 // Sign makes a signing request against Crypki Server.
 func (s *Signer) Sign(ctx context.Context, request *pb.SSHCertificateSigningRequest) (certs []ssh.PublicKey, comments []string, err error) {
+	if len(s.endpoints) == 0 {
+		return nil, nil, errors.New("no crypki endpoint is configured")
+	}
 	for _, endpoint := range s.endpoints {
 		certs, comments, err = s.postUserSSHCertificate(ctx, request, endpoint)
 		if err == nil {
